@@ -185,7 +185,7 @@ theorem tNorm_eq_wpn (close1 : ℝ → Bool) (w : TW ℝ) (n : Nat) (hw : twPos 
     cases p with
     | one => simp only [tNorm, sumTo_eq_sum, roots_rpow, ops_abs, wpn, wp, twFn]
     | two =>
-      have hre : RCLike.re (tInner (ops 𝕜) (.arr w) n x x) = ∑ i ∈ range n, ‖x i‖ ^ 2 * w i := by
+      have hre : RCLike.re (tInner (ops 𝕜).toIOps (.arr w) n x x) = ∑ i ∈ range n, ‖x i‖ ^ 2 * w i := by
         rw [tInner_eq_wsum, wsum_self, RCLike.ofReal_re]; rfl
       have hS : 0 ≤ ∑ i ∈ range n, ‖x i‖ ^ 2 * w i :=
         Finset.sum_nonneg (fun i hi => mul_nonneg (sq_nonneg _) (hw i (mem_range.mp hi)).le)
@@ -517,5 +517,178 @@ theorem norm_triangle_tree (close1 : ℝ → Bool) (s : Space ℝ) (hs : SpacePo
         (shaped_add (comp k) (xs k) (ys k) (hx k) (hy k))
       rw [abs_of_nonneg h0]
       exact h1.trans (add_le_add (le_abs_self _) (le_abs_self _))
+
+/-- Documented geometry, stated without the model's fractions: the cell of node `k` of an axis
+with nodes `g0 + k·h` (`k < n`) inside `[a, b]` reaches from the midpoint with the previous
+node (or from `a` for the first node) to the midpoint with the next node (or to `b` for the
+last node). -/
+noncomputable def cellSize (a b g0 h : ℝ) (n k : Nat) : ℝ :=
+  (if k + 1 = n then b else g0 + (k : ℝ) * h + h / 2) -
+    (if k = 0 then a else g0 + (k : ℝ) * h - h / 2)
+
+/-- first node of the axis as placed by `uniform_grid_fromintv` -/
+noncomputable def node0 (s : AxSpec ℝ) : ℝ := (gridEnds (fun k => (k : ℝ)) s.a s.b s.n s.l s.r).1
+
+/-- `cell side × boundary factor of node k` (what the model multiplies into the sum) is the
+geometric size of the cell of node `k`, for every axis built by `uniform_discr`. -/
+theorem mkAxis_cellSize (close1 : ℝ → Bool) (hc : Ideal close1) (s : AxSpec ℝ)
+    (hab : s.a < s.b) (hn : 1 ≤ s.n) (k : Nat) (hk : k < s.n) :
+    (mkAxis (fun k => (k : ℝ)) s.a s.b s.n s.l s.r).2 *
+        sideFac close1 (fun f => f) (mkAxis (fun k => (k : ℝ)) s.a s.b s.n s.l s.r).1 k =
+      cellSize s.a s.b (node0 s) (mkAxis (fun k => (k : ℝ)) s.a s.b s.n s.l s.r).2 s.n k := by
+  obtain ⟨a, b, n, l, r⟩ := s
+  simp only at hab hn hk ⊢
+  by_cases h1 : n = 1
+  · subst h1
+    have : k = 0 := by omega
+    subst this
+    simp [mkAxis, sideFac_ideal close1 hc, cellSize]
+  · obtain ⟨m, rfl⟩ : ∃ m, n = m + 2 := ⟨n - 2, by omega⟩
+    have e1 : m + 2 - 1 = m + 1 := by omega
+    have hlt := gridEnds_lt a b hab m l r
+    have hN : ((m + 1 : ℕ) : ℝ) ≠ 0 := by positivity
+    set g := gridEnds (fun k => (k : ℝ)) a b (m + 2) l r with hg
+    set h := (g.2 - g.1) / ((m + 1 : ℕ) : ℝ) with hh'
+    have hh : h ≠ 0 := div_ne_zero (sub_ne_zero.mpr hlt.ne') hN
+    have hNh : ((m : ℝ) + 1) * h = g.2 - g.1 := by
+      rw [hh']; push_cast at hN ⊢; field_simp
+    have hfrac : ∀ c : ℝ, h * (1 / 2 + c / h) = h / 2 + c := fun c => by field_simp
+    simp only [mkAxis, if_neg h1, e1, node0, ← hg, ← hh', sideFac_ideal close1 hc, cellSize]
+    by_cases k0 : k = 0
+    · subst k0
+      rw [if_pos rfl, if_neg (by omega), if_pos rfl, if_neg (by omega), mul_one, hfrac]
+      push_cast; ring
+    · rw [if_neg k0, if_neg k0]
+      by_cases kl : k + 1 = m + 2
+      · rw [if_pos kl, if_pos kl, one_mul, hfrac]
+        have hk' : (k : ℝ) = (m : ℝ) + 1 := by
+          have : k = m + 1 := by omega
+          subst this; push_cast; ring
+        rw [hk']
+        linarith
+      · rw [if_neg kl, if_neg kl]
+        ring
+
+/-- number of entries of a `uniform_discr` shape -/
+def specSize : List (AxSpec ℝ) → Nat
+  | [] => 1
+  | s :: l => s.n * specSize l
+
+/-- product over the axes of the geometric cell sizes at the C-order multi-index of the flat
+index `i` (`i / Π rest`, `i % Π rest`): the volume of the cell of entry `i`. -/
+noncomputable def cellProd : List (AxSpec ℝ) → Nat → ℝ
+  | [], _ => 1
+  | s :: l, i =>
+      cellSize s.a s.b (node0 s) (mkAxis (fun k => (k : ℝ)) s.a s.b s.n s.l s.r).2 s.n
+          (i / specSize l) * cellProd l (i % specSize l)
+
+theorem axesSize_specAxes (specs : List (AxSpec ℝ)) (hs : ∀ s ∈ specs, 1 ≤ s.n) :
+    axesSize (specAxes (fun k => (k : ℝ)) specs) = specSize specs := by
+  induction specs with
+  | nil => rfl
+  | cons s l ih =>
+    have hn : (mkAxis (fun k => (k : ℝ)) s.a s.b s.n s.l s.r).1.n = s.n := by
+      unfold mkAxis; split_ifs with h <;> simp [h]
+    simp only [specAxes, List.map_cons, axesSize, specSize, hn]
+    rw [← ih (fun t ht => hs t (by simp [ht]))]; rfl
+
+theorem specSize_pos (specs : List (AxSpec ℝ)) (hs : ∀ s ∈ specs, 1 ≤ s.n) : 0 < specSize specs := by
+  induction specs with
+  | nil => simp [specSize]
+  | cons s l ih =>
+    exact Nat.mul_pos (hs s (by simp)) (ih (fun t ht => hs t (by simp [ht])))
+
+theorem cellVolume_bfac_eq_cellProd (close1 : ℝ → Bool) (hc : Ideal close1)
+    (specs : List (AxSpec ℝ)) (hs : ∀ s ∈ specs, s.a < s.b ∧ 1 ≤ s.n) (i : Nat)
+    (hi : i < specSize specs) :
+    cellVolume specs * bfac close1 (fun f => f) (specAxes (fun k => (k : ℝ)) specs) i =
+      cellProd specs i := by
+  induction specs generalizing i with
+  | nil => simp [cellVolume, prodL, specAxes, bfac, cellProd]
+  | cons s l ih =>
+    have hl : ∀ t ∈ l, t.a < t.b ∧ 1 ≤ t.n := fun t ht => hs t (by simp [ht])
+    have hpos := specSize_pos l (fun t ht => (hl t ht).2)
+    have hsz := axesSize_specAxes l (fun t ht => (hl t ht).2)
+    have hk : i / specSize l < s.n := by
+      rw [Nat.div_lt_iff_lt_mul hpos]; simpa [specSize] using hi
+    have h1 := mkAxis_cellSize close1 hc s (hs s (by simp)).1 (hs s (by simp)).2 _ hk
+    have h2 := ih hl (i % specSize l) (Nat.mod_lt _ hpos)
+    simp only [cellVolume, specAxes, List.map_cons, prodL, bfac, cellProd] at h2 ⊢
+    rw [← h1, ← h2]
+    simp only [specAxes] at hsz
+    rw [hsz]
+    ring
+
+theorem dW_uniformDiscr (close1 : ℝ → Bool) (hc : Ideal close1) (specs : List (AxSpec ℝ))
+    (hs : ∀ s ∈ specs, s.a < s.b ∧ 1 ≤ s.n) (p : Expo ℝ) (hp : p.isInf = false) (i : Nat)
+    (hi : i < specSize specs) :
+    dW close1 true (specAxes (fun k => (k : ℝ)) specs) (.const (cellVolume specs)) p i =
+      cellProd specs i := by
+  rw [← cellVolume_bfac_eq_cellProd close1 hc specs hs i hi]
+  unfold dW
+  split_ifs with h
+  · simp [twFn]
+  · have : allClose1 close1 (specAxes (fun k => (k : ℝ)) specs) = true := by
+      simpa [scalesBoundary, uniformlyWeighted, hp] using h
+    simp [twFn, bfac_of_allClose close1 _ _ this]
+
+theorem gridEnds_ge (a b : ℝ) (hab : a < b) (n : Nat) (hn : 1 ≤ n) (l r : Bool) :
+    a ≤ (gridEnds (fun k => (k : ℝ)) a b n l r).1 ∧ (gridEnds (fun k => (k : ℝ)) a b n l r).2 ≤ b := by
+  have hba : 0 ≤ b - a := by linarith
+  have h1 : (0 : ℝ) ≤ ((2 * n - 1 : ℕ) : ℝ) := Nat.cast_nonneg _
+  have h2 : (0 : ℝ) ≤ ((2 * n : ℕ) : ℝ) := Nat.cast_nonneg _
+  have d1 := div_nonneg hba h1
+  have d2 := div_nonneg hba h2
+  cases l <;> cases r <;> simp only [gridEnds] <;> constructor <;> linarith
+
+theorem mkAxis_pos (a b : ℝ) (hab : a < b) (n : Nat) (hn : 1 ≤ n) (l r : Bool) :
+    0 < (mkAxis (fun k => (k : ℝ)) a b n l r).2 ∧
+      0 < (mkAxis (fun k => (k : ℝ)) a b n l r).1.fl ∧
+      0 < (mkAxis (fun k => (k : ℝ)) a b n l r).1.fr := by
+  by_cases h1 : n = 1
+  · subst h1; simp [mkAxis]; linarith
+  · obtain ⟨m, rfl⟩ : ∃ m, n = m + 2 := ⟨n - 2, by omega⟩
+    have e1 : m + 2 - 1 = m + 1 := by omega
+    have hlt := gridEnds_lt a b hab m l r
+    obtain ⟨ga, gb⟩ := gridEnds_ge a b hab (m + 2) hn l r
+    have hN : (0 : ℝ) < ((m + 1 : ℕ) : ℝ) := by positivity
+    have hh : 0 < ((gridEnds (fun k => (k : ℝ)) a b (m + 2) l r).2 -
+        (gridEnds (fun k => (k : ℝ)) a b (m + 2) l r).1) / ((m + 1 : ℕ) : ℝ) :=
+      div_pos (sub_pos.mpr hlt) hN
+    simp only [mkAxis, if_neg h1, e1]
+    refine ⟨hh, ?_, ?_⟩
+    · have := div_nonneg (sub_nonneg.mpr ga) hh.le
+      linarith
+    · have := div_nonneg (sub_nonneg.mpr gb) hh.le
+      linarith
+
+theorem specAxes_pos (specs : List (AxSpec ℝ)) (hs : ∀ s ∈ specs, s.a < s.b ∧ 1 ≤ s.n) :
+    axesPos (specAxes (fun k => (k : ℝ)) specs) ∧ 0 < cellVolume specs := by
+  induction specs with
+  | nil => simp [axesPos, specAxes, cellVolume, prodL]
+  | cons s l ih =>
+    obtain ⟨ih1, ih2⟩ := ih (fun t ht => hs t (by simp [ht]))
+    obtain ⟨p1, p2, p3⟩ := mkAxis_pos s.a s.b (hs s (by simp)).1 s.n (hs s (by simp)).2 s.l s.r
+    constructor
+    · intro a ha
+      simp only [specAxes, List.map_cons, List.mem_cons] at ha
+      rcases ha with rfl | ha
+      · exact ⟨p2, p3⟩
+      · exact ih1 a ha
+    · simp only [cellVolume, List.map_cons, prodL] at ih2 ⊢
+      exact mul_pos p1 ih2
+
+theorem sum_cellProd (close1 : ℝ → Bool) (hc : Ideal close1) (specs : List (AxSpec ℝ))
+    (hs : ∀ s ∈ specs, s.a < s.b ∧ 1 ≤ s.n) :
+    ∑ i ∈ range (specSize specs), cellProd specs i = (specs.map (fun s => s.b - s.a)).prod := by
+  rw [← discr_one_sum close1 hc specs hs, axesSize_specAxes specs (fun s h => (hs s h).2)]
+  exact Finset.sum_congr rfl (fun i hi =>
+    (dW_uniformDiscr close1 hc specs hs .two rfl i (mem_range.mp hi)).symm)
+
+theorem defaultWeight_eq (specs : List (AxSpec ℝ)) (p : Expo ℝ) (hp : p.isInf = false) :
+    defaultWeight (fun k => (k : ℝ)) specs p = .const (cellVolume specs) := by
+  cases specs with
+  | nil => simp [defaultWeight, cellVolume, prodL]
+  | cons s l => simp [defaultWeight, hp, cellVolume]
 
 end OdlModel.C02
